@@ -43,6 +43,29 @@ def value_attr(interp, obj, name):
                 if not interp.truth(interp.contains(s, x)):
                     s.items.append(x)
             return M(obj, name, add)
+        if name in ("discard", "remove"):
+            def drop(interp, s, x, _strict=(name == "remove")):
+                for i, y in enumerate(list(s.items)):
+                    if interp.truth(interp.eq(y, x)):
+                        del s.items[i]
+                        return None
+                if _strict:
+                    interp.throw("KeyError", x)
+                return None
+            return M(obj, name, drop)
+        if name == "clear":
+            def clear(interp, s):
+                s.items[:] = []
+            return M(obj, name, clear)
+        if name == "copy":
+            return M(obj, name, lambda interp, s: PySet(list(s.items)))
+        if name == "update":
+            def update(interp, s, *others):
+                for o in others:
+                    for x in bm.iterate(interp, o):
+                        if not interp.truth(interp.contains(s, x)):
+                            s.items.append(x)
+            return M(obj, name, update)
     elif isinstance(obj, str):
         f = STR_METHODS.get(name)
         if f is not None:
